@@ -69,6 +69,28 @@ def regOK (reg : Registry) : Bool :=
   reg.dict.all (fun kv => (reg.row kv.2).isSome && reg.get kv.2 == kv.2) &&
   (reg.row reg.default).isSome && reg.get reg.default == reg.default
 
+/-! ### registration histories (`StateTypesRegistry.register`) -/
+
+/-- a state type object as the registry sees it: a name for the object and its `identifier()` -/
+structure Obj where
+  name : Str
+  ident : Str
+deriving DecidableEq, Repr
+
+/-- `dict[k] = o` -/
+def setKey (d : List (Str × Obj)) (k : Str) (o : Obj) : List (Str × Obj) := (k, o) :: d.filter (fun e => e.1 ≠ k)
+
+def lookupO (k : Str) : List (Str × Obj) → Option Obj
+  | [] => none
+  | (a, b) :: rest => if a = k then some b else lookupO k rest
+
+/-- `register(type_qualname, state_type)`: the one dictionary gets the object under the qualified type name AND under its identifier,
+both overwriting what was there -/
+def register (d : List (Str × Obj)) (qual : Str) (o : Obj) : List (Str × Obj) := setKey (setKey d qual o) o.ident o
+
+def registerAll (d : List (Str × Obj)) (calls : List (Str × Obj)) : List (Str × Obj) :=
+  calls.foldl (fun d c => register d c.1 c.2) d
+
 /-- third-party part of a state type: what `as_bytes` / `from_bytes` / `copy` do for a (type, extension)
 pair, and the qualified type name of a value. `none` = the call raises. -/
 structure Codec (V B : Type) where
